@@ -39,7 +39,7 @@ func init() {
 	Register(&Check{
 		ID: "C09", Level: "exploration", Tech: "deterministic simulation: raw-drive monitor after every call (secret markers in every encoding, clear-text STFS records, outer tar header fields) + restart with an unrelated identity",
 		Rule:      "seeded histories under {age,pgp} x compression x signature whose names, link targets and contents embed unique 20-character high-entropy markers and whose owners/timestamps are set to distinctive values; after every call the raw tape is searched for every marker raw, hex and base64 (3 alignments), for the distinctive owner/time values and for clear-text STFS PAX keys other than the wrapper, and every outer tar header must carry only size and the wrapper record; finally a fresh instance with an unrelated identity must fail both the index rebuild and every restore; non-trivial = at least 3 records with secrets on the tape; distinct by (config, op kinds)",
-		QuickRuns: 700, QuickSecs: 60, ThoroughRuns: 20000, ThoroughSecs: 1500,
+		QuickRuns: 2000, QuickSecs: 60, ThoroughRuns: 20000, ThoroughSecs: 1500,
 		Assumptions: []string{"markers are 20 random alphanumerics: a chance match in ciphertext has probability < 2^-60 per tape", "record lengths and the fixed wrapper (PAX key STFS.EmbeddedHeader, tar framing) are allowed to be visible"},
 		Gen: func(r *rand.Rand, tier string, relax Relax) *Case {
 			c := &Case{Cfg: GenConfig(r, 0), P: map[string]int64{}, S: map[string]string{}}
@@ -168,20 +168,48 @@ func evalC09(t *testing.T, c *Case, st *Stats, relax Relax) *Violation {
 		if err != nil {
 			return &Violation{Prop: c.Prop, Oracle: "harness", Detail: err.Error()}
 		}
-		accepted := 0
-		ierr := Reindex(other, true, func(h *config.Header) { accepted++ })
-		if ierr == nil || accepted > 0 {
-			return &Violation{Prop: c.Prop, Oracle: "rebuild-with-foreign-key-succeeds", Detail: fmt.Sprintf("index rebuild with an unrelated identity: err=%v, %d headers accepted", ierr, accepted)}
-		}
 		recs, _ := ScanTape(tape)
 		rs := int64(c.Cfg.RecordSize)
+		foreignMustFail := func(when string) *Violation {
+			accepted := 0
+			ierr := Reindex(other, true, func(h *config.Header) { accepted++ })
+			if ierr == nil || accepted > 0 {
+				return &Violation{Prop: c.Prop, Oracle: "rebuild-with-foreign-key-succeeds", Detail: fmt.Sprintf("index rebuild with an unrelated identity (%s): err=%v, %d headers accepted", when, ierr, accepted)}
+			}
+			for _, r := range recs {
+				b := r.Off / 512
+				got, err := fetchAt(other, b/rs, b%rs)
+				if err == nil {
+					return &Violation{Prop: c.Prop, Oracle: "restore-with-foreign-key-succeeds", Detail: fmt.Sprintf("recovery.Fetch of the record at byte %d with an unrelated identity (%s) returns %d bytes without error", r.Off, when, len(got))}
+				}
+				st.Add("foreign_key_restores_rejected", 1)
+			}
+			return nil
+		}
+		if v := foreignMustFail("before the owner has read the tape"); v != nil {
+			return v
+		}
+		// the owner rebuilds and restores every record of the same tape in the same process;
+		// nothing it learned may help the unrelated identity afterwards
+		owner, err := x.W.Open(OpenOpts{Drive: d, Index: x.W.NewIndexPath(), NoInit: true})
+		if owner != nil {
+			defer owner.Close()
+		}
+		if err != nil {
+			return &Violation{Prop: c.Prop, Oracle: "harness", Detail: err.Error()}
+		}
+		if err := Reindex(owner, true, func(h *config.Header) {}); err != nil {
+			return &Violation{Prop: c.Prop, Oracle: "owner-rebuild-fails", Detail: err.Error()}
+		}
 		for _, r := range recs {
 			b := r.Off / 512
-			got, err := fetchAt(other, b/rs, b%rs)
-			if err == nil {
-				return &Violation{Prop: c.Prop, Oracle: "restore-with-foreign-key-succeeds", Detail: fmt.Sprintf("recovery.Fetch of the record at byte %d with an unrelated identity returns %d bytes without error", r.Off, len(got))}
+			// (what the owner gets for records without content is C03/C04's business)
+			if _, err := fetchAt(owner, b/rs, b%rs); err == nil {
+				st.Add("owner_restores", 1)
 			}
-			st.Add("foreign_key_restores_rejected", 1)
+		}
+		if v := foreignMustFail("after the owner has rebuilt and restored the same tape in this process"); v != nil {
+			return v
 		}
 		if checked >= 3 {
 			st.Nontrivial(c.Cfg.String() + "|" + opKinds(c.Ops))
